@@ -249,6 +249,15 @@ class Runner:
             ws.send('2probe')
         return ws
 
+    def upgrade_failed(self, s):
+        """The client gave up on an upgrade: it resumes polling."""
+        s.up_state = 'failed'
+        s.want_upgrade = None
+        if s.autopoll and not s.gone and s.mode == 'polling' and \
+                not [p for p in s.polls if not p.done] and \
+                not self.ended(s):
+            self.poll(s)
+
     def send(self, s, kind='text', sid=None):
         s.nsend += 1
         mid = 'M%d.%d' % (s.n, s.nsend)
